@@ -84,3 +84,17 @@ CHECKS["C13"] = {
         _sub("TestC13_ReadOnly", 2000, 60000, sq=16, st=16),
     ],
 }
+
+CHECKS["C04"] = {
+    "level": "fault_enumeration",
+    "subs": [
+        _sub("TestC04_Crash", 1500, 50000, sq=16, st=16),
+    ],
+}
+
+CHECKS["C14"] = {
+    "level": "fault_enumeration",
+    "subs": [
+        _sub("TestC14_Faults", 500, 25000, sq=16, st=16),
+    ],
+}
